@@ -107,3 +107,29 @@ contract(f"{G}:GHE.size", dict(self=GHEsize(), method=Const(HOURLY)), name=f"{G}
                    "max-height-when-undersized-everywhere", "configuration-unchanged", "simulated-height-near-returned-height")],
          assigns=[(lambda P: (P.self, "g_Hsim"), Real), (lambda P: (P.self.fields["bhe"].fields["b"], "H"), Real)],
          returns=NoneT()).applies = lambda env: False
+
+
+# ---- run-time form of the cost function: limits at, above and below zero, as floats and as ints ---------------------------------------------
+def _cost_check(a):
+    from types import SimpleNamespace as NS
+
+    from ghedesigner.ground_heat_exchangers import BaseGHE
+
+    ghe = object.__new__(BaseGHE)
+    ghe.sim_params = NS(max_EFT_allowable=a["max_allow"], min_EFT_allowable=a["min_allow"])
+    got = BaseGHE.cost(ghe, a["max_eft"], a["min_eft"])
+    want = max(a["max_eft"] - a["max_allow"], a["min_allow"] - a["min_eft"])
+    if got != want:
+        return False, {"why": "the excess temperature is not max(max_eft - allowed maximum, allowed minimum - min_eft)", "got": got, "want": want, "signature": "cost-formula"}
+    return True, {}
+
+
+def _cost_gen(rng):
+    lim = lambda: rng.choice([0, 0.0, -0.0, 5, 5.0, 35.0, -3.5, 22, 1e-9])  # noqa: E731  (a limit of exactly zero is a legitimate limit: antifreeze loops)
+    return {"max_allow": lim(), "min_allow": lim(), "max_eft": round(rng.uniform(-10, 50), 3), "min_eft": round(rng.uniform(-10, 50), 3)}
+
+
+from pyvc.run import native as _native  # noqa: E402
+
+_native(f"{G}:BaseGHE.cost", _cost_check, _cost_gen, None,
+        bound="real BaseGHE.cost on stub objects: allowed maximum / minimum from {0, 0.0, -0.0, 5, 5.0, 35.0, -3.5, 22, 1e-9} (ints and floats), temperatures -10..50: equals max(over, under) exactly")
